@@ -111,6 +111,23 @@ def main():
                 pass
             except BaseException as ex:  # noqa: BLE001
                 report(f"JsonParser on truncated JSON raised {type(ex).__name__}: {str(ex)[:200]}", {"json": text[:off][-300:]})
+        data = text.encode("utf-8")
+        variants = [b"\x80", b"\xff\xfe{", b"\xef\xbb\xbf" + data, data[: len(data) // 2] + b"\xc3", b"\x00" + data, data + b"\xff"]
+        idx = range(len(data)) if tier != "quick" else rnd.sample(range(len(data)), min(len(data), 120))
+        for i in idx:
+            b = bytearray(data)
+            b[i] ^= 1 << rnd.randrange(8)
+            variants.append(bytes(b))
+        for _ in range(30):
+            variants.append(bytes(rnd.randrange(256) for _ in range(rnd.randrange(0, 40))))
+        for v in variants:
+            n += 1
+            try:
+                JsonParser(context=ctx).from_bytes(v, type(obj))
+            except DOCUMENTED:
+                pass
+            except BaseException as ex:  # noqa: BLE001
+                report(f"JsonParser.from_bytes on corrupted bytes raised {type(ex).__name__}: {str(ex)[:200]}", {"bytes": repr(v[:200])})
     print(json.dumps({"done": n}), flush=True)
     sys.stdout.flush()
     os._exit(0)
